@@ -23,7 +23,7 @@ RULE = (
     "open: the reads touching bytes >= 720 of an image number at most ceil(N / rpc), have "
     "strictly increasing non-overlapping offsets and stay inside the file. Non-trivial: the "
     "selected span covers >= 1 group and fewer than all groups."
-    " Domain guard: a selection is judged only if xarray produces on a trivially correct lazily indexed control backend what it produces in memory. The file objects advertise a block size of 64 bytes. Half of the cases judge an open that follows another open of the same product (handed the very same options dict object, or with another records_per_chunk)."
+    " Domain guard: a selection is judged only if xarray produces on a trivially correct lazily indexed control backend what it produces in memory. The file objects advertise a block size of 64 bytes. Half of the cases judge an open that follows another open of the same product (handed the very same options dict object, or with another records_per_chunk); in three of five cases the selections are loaded from a copy of the tree (pickle round trip, DataTree.copy(deep=True), copy.deepcopy of the image dataset), and making the copy must not read line records."
 )
 ASSUMPTIONS = [
     "the vtrace filesystem sees every byte the library requests (no hidden buffering: it hands out raw file objects)",
@@ -53,6 +53,8 @@ def cases(draw):
         # the judged open is the first one / the second one handed the same options object /
         # one that follows an open of the same product with another chunking
         "prior_open": draw(st.sampled_from([None, None, "same-options-object", "other-rpc"])),
+        # the selections are loaded from the tree as returned / from a pickled copy / from a deep copy
+        "copy": draw(st.sampled_from([None, None, "pickle", "deepcopy", "dataset-deepcopy"])),
     }
 
 
@@ -63,12 +65,12 @@ def plan(tier):
 
 def classify(case):
     n_groups = math.ceil(case["lines"] / min(case["rpc"], case["lines"]))
-    labels = [f"groups={'1' if n_groups == 1 else '2-5' if n_groups <= 5 else '>5'}", f"level={case['level']}", f"prior_open={case.get('prior_open')}"]
+    labels = [f"groups={'1' if n_groups == 1 else '2-5' if n_groups <= 5 else '>5'}", f"level={case['level']}", f"prior_open={case.get('prior_open')}", f"copy={case.get('copy')}"]
     return n_groups >= 2, labels
 
 
 def sub_units(case):
-    base = [case["level"], case["lines"], case["pixels"], case["rpc"], case["vseed"], case.get("prior_open")]
+    base = [case["level"], case["lines"], case["pixels"], case["rpc"], case["vseed"], case.get("prior_open"), case.get("copy")]
     n_groups = math.ceil(case["lines"] / min(case["rpc"], case["lines"]))
     yield [base, "open"], True
     for ops in case["selections"]:
@@ -157,6 +159,19 @@ def run_case(case):
         lines, reclen = iinfo["lines"], iinfo["reclen"]
         rpc = min(case["rpc"], lines)
         n_groups = math.ceil(lines / rpc)
+        if case.get("copy"):
+            import copy as copy_module
+            import pickle
+
+            copier = {"pickle": lambda t: pickle.loads(pickle.dumps(t)), "deepcopy": lambda t: t.copy(deep=True),
+                      "dataset-deepcopy": lambda t: xr.DataTree.from_dict({"/imagery/HH": copy_module.deepcopy(t["imagery/HH"].to_dataset())})}[case["copy"]]
+            vtrace.STORE.clear()
+            tree, err = harness.guard(copier, tree)
+            if err is not None:
+                return out + [harness.disc("exception", f"{case['copy']} of the tree", "a copy", harness.exc_text(err))]
+            touched = [e for e in vtrace.STORE.snapshot() if e[0] in ("read", "cat_file") and e[1].endswith(name)]
+            if touched:
+                out.append(harness.disc("read-outside-span", f"{case['copy']} of the tree", "copying a lazily loaded tree reads no line records", touched[:2]))
         da = tree["imagery/HH"]["data"]
         grid = xr.DataArray(
             np.repeat(np.arange(lines)[:, None], case["pixels"], axis=1), dims=da.dims,
